@@ -304,6 +304,11 @@ func Load(repo string, patterns []string) (*Ctx, error) {
 	sort.Slice(ctx.files, func(i, j int) bool { return ctx.files[i].Path < ctx.files[j].Path })
 	for _, cf := range ctx.files {
 		for _, o := range cf.Opaque {
+			if a, b, ok := strings.Cut(o, " like "); ok {
+				opaqueLike[strings.TrimSpace(a)] = strings.TrimSpace(b)
+				ctx.opaque[strings.TrimSpace(b)] = true
+				continue
+			}
 			ctx.opaque[o] = true
 		}
 		ctx.globalFacts[cf.PkgPath] = append(ctx.globalFacts[cf.PkgPath], cf.Globals...)
